@@ -125,14 +125,14 @@ Proof.
                     (norm2_zero w _ Hw Hz)) as H0.
       rewrite wdot_vsub_r in H0 by congruence. rewrite (wdot_comm w b x). lra.
   - (* FLeft *) cbn [wf] in Hwf. destruct Hwf as [Hs Hwf].
-    rewrite cval_FLeft in Hc by (eauto using wf_lin_ok). cbn [value] in Hv.
+    rewrite cval_FLeft in Hc by assumption. cbn [value] in Hv.
     destruct (val f w x) as [v|] eqn:E1; cbn [rbind] in Hv; inv_ok.
     destruct (cval w f (vscal (1 / s) y)) as [v'|] eqn:E2; cbn [rbind] in Hc; inv_ok.
     pose proof (IHf _ w x (vscal (1 / s) y) v v' Hwf Hw eq_refl Lx ltac:(rewrite vscal_length; assumption) E1 E2) as H.
     apply (fy_escal s) in H; [|assumption]. rewrite wdot_vscal_r in H.
     replace (s * (1 / s * wdot w x y)) with (wdot w x y) in H by (field; lra). exact H.
   - (* FRight *) cbn [wf] in Hwf. destruct Hwf as [Hs Hwf].
-    rewrite cval_FRight in Hc by (eauto using wf_lin_ok). cbn [value] in Hv.
+    rewrite cval_FRight in Hc by assumption. cbn [value] in Hv.
     pose proof (IHf _ w (vscal s x) (vscal (1 / s) y) vx vy Hwf Hw eq_refl
                   ltac:(rewrite vscal_length; assumption) ltac:(rewrite vscal_length; assumption) Hv Hc) as H.
     rewrite wdot_vscal_r, wdot_vscal_l in H.
@@ -158,7 +158,7 @@ Proof.
     apply (fy_shift_r _ _ _ (wdot w y t)) in H.
     apply (fy_shift_r _ _ _ 0) in H.
     eapply fy_weaken; [|exact H]. rewrite (wdot_comm w t y). lra.
-  - (* FQuadPert *) cbn [wf] in Hwf. destruct Hwf as (Ha & Lu & Hwf & _).
+  - (* FQuadPert *) cbn [wf] in Hwf. destruct Hwf as (Ha & Lu & Hwf).
     destruct (Req_dec a 0) as [->|Hna]; [|rewrite cval_FQuadPert_a in Hc by assumption; discriminate].
     rewrite cval_FQuadPert0 in Hc. cbn [value] in Hv.
     destruct (val f w x) as [v|] eqn:E1; cbn [rbind] in Hv; inv_ok.
